@@ -7,10 +7,15 @@ Line-protocol front end of the C02 model (requests after the leading `C02` field
      (prog s…)  s,e := (i N) (n) (F) (ch) (v x) (+ a b) (fn name (p…) s…) (c f a…) (l e…)
                        (x e i) (m e…) (k e i) (r kind a…) (d x e) (a x e) (ret e)
                        (+= x e) (-= x e) (++ x) (-- x) (ma (x…) e) (md (x…) e)
-  reply: <Impl outcome> TAB <Spec outcome> TAB <MAKE_CELL groups> TAB <deep>
+                       (if c (b s…) (b s…)) (sw e (case K s…)… (default s…))
+                       (loop kind (x…) N (item…) (b s…))   kind := for3 cond range1 range2 forin once
+  reply: <Impl outcome> TAB <Spec outcome> TAB <MAKE_CELL groups> TAB <deep> TAB <locals>
      outcome := ok <value> | err <class> | undef
      groups  := per function literal with free variables "slot:back,slot:back" joined by ";" ("-" if none)
      deep    := true iff some MAKE_CELL has framesBack ≥ 1 (the guard of the known finding is `false`)
+     locals  := `LocalsCount` of every function literal, in the resolver's order, joined by ","
+  slots <count> <op…>  the slot allocator of block tables on its own: ops o (block begins) | c (block
+     ends) | d:<name>; reply: ok TAB <slots claimed by the new variables, in order> TAB <final count>
   acts <mode> <op…>    the abstract activation machine: ops m:d1,d2… | c:N | s:N | r
 -/
 namespace Risor.C02
@@ -42,6 +47,11 @@ end
 def routeOf : String → Option Route
   | "map" => some .map | "filter" => some .filter | "each" => some .each | "sorted" => some .sorted
   | "try" => some .try_ | "spawn" => some .spawn | "go" => some .gospawn
+  | _ => none
+
+def loopKindOf : String → Option LoopK
+  | "for3" => some .for3 | "cond" => some .cond | "range1" => some .range1 | "range2" => some .range2
+  | "forin" => some .forin | "once" => some .once
   | _ => none
 
 def atomsOf : List SExp → Option (List String)
@@ -77,6 +87,13 @@ def toTm : Nat → SExp → Option Tm
     | "ma", [.list xs, e] => do pure (.massign (← atomsOf xs) (← toTm n e))
     | "md", [.list xs, e] => do pure (.mdecl (← atomsOf xs) (← toTm n e))
     | "ret", [e] => do pure (.ret (← toTm n e))
+    | "if", [c, .list (.atom "b" :: t), .list (.atom "b" :: e)] => do
+      pure (.ifte (← toTm n c) (← toTms n t) (← toTms n e))
+    | "sw", subj :: cases => do pure (.switch (← toTm n subj) (← toTms n cases))
+    | "case", .atom k :: body => do pure (.scase (some (← k.toInt?)) (← toTms n body))
+    | "default", body => do pure (.scase none (← toTms n body))
+    | "loop", [.atom kind, .list xs, .atom cnt, .list items, .list (.atom "b" :: body)] => do
+      pure (.loop (← loopKindOf kind) (← atomsOf xs) (← cnt.toNat?) (← (← atomsOf items).mapM String.toInt?) (← toTms n body))
     | _, _ => none
   | _ + 1, _ => none
 def toTms : Nat → List SExp → Option (List Tm)
@@ -109,6 +126,13 @@ def parseOp (s : String) : Option AOp :=
   | ["m", ds] => ((ds.splitOn ",").mapM String.toNat?).map AOp.makeClosure
   | _ => none
 
+def parseBOp (s : String) : Option BOp :=
+  match s.splitOn ":" with
+  | ["o"] => some .openB
+  | ["c"] => some .closeB
+  | ["d", x] => some (.decl x)
+  | _ => none
+
 def showAState (s : AState) : String :=
   let clo (c : AClo) : String :=
     toString c.definer ++ "<" ++ ",".intercalate (c.captured.map fun o => match o with | some a => toString a | none => "x") ++ ">"
@@ -123,8 +147,16 @@ def handle : List String → String
       | .error e => "error\tresolve:" ++ e
       | .ok p =>
         showOutcome (Impl fuel p) ++ "\t" ++ showOutcome (Spec fuel p) ++ "\t" ++ showGroups p.lits ++ "\t" ++
-          toString (!depth1Only p.lits)
+          toString (!depth1Only p.lits) ++ "\t" ++
+          (if p.lits.isEmpty then "-" else ",".intercalate (p.lits.map fun l => toString l.nlocals))
     | _, _, _ => "error\tbad-request"
+  | "slots" :: cnt :: ops =>
+    match cnt.toNat?, ops.mapM parseBOp with
+    | some cnt, some ops =>
+      let s : FScope := { fnTab := [], bodyTab := [], count := cnt, frees := [] }
+      let cl := s.claims ops
+      "ok\t" ++ (if cl.isEmpty then "-" else ",".intercalate (cl.map toString)) ++ "\t" ++ toString (s.runOps ops).count
+    | _, _ => "error\tbad-op"
   | "acts" :: mode :: ops =>
     match ops.mapM parseOp with
     | some ops =>
